@@ -1591,6 +1591,10 @@ def gen_cases(tier, rng):
     for _ in range(600 if tier == "quick" else 2500):
         n = rng.randint(1, 8) if rng.random() < 0.5 else rng.randint(1, 6)
         a = _rand_graph(rng, n, hc=rng.random() < 0.6)
+        two = rng.random() < 0.25           # a second edge attribute, selected by an engine with TWO edge attributes
+        if two:
+            for e in a["edges"]:
+                e[2]["standard_order"] = rng.choice([0, 0, 1, -1])
         z = rng.random()
         if z < 0.3:
             b = _present(a, rng, extra=10)
@@ -1602,6 +1606,11 @@ def gen_cases(tier, rng):
             b = _rand_graph(rng, rng.randint(1, n), hc=True)
         gs = [a, b]
         es = _engines(rng)
+        if two:
+            if b["edges"] and rng.random() < 0.5:       # the copy differs in the SECOND selected edge attribute only
+                e = rng.choice(b["edges"])[2]
+                e["standard_order"] = rng.choice([x for x in (0, 1, -1) if x != e.get("standard_order")])
+            es[2] = {"na": ["element", "charge"], "ea": rng.choice([["order", "standard_order"], ["standard_order", "order"]]), "wl": rng.random() < 0.5, "mm": None}
         if n > 6:      # keep enumeration of all embeddings bounded
             for s in es:
                 if s["mm"] is None and (not s["na"] or s["na"] == ["element"]):
